@@ -15,16 +15,22 @@ NOT_CLAIMED = {}
 PROPS = {
     "C18": dict(
         claimed=True,
-        level_text="Exactness of Multiply/ProductsAreEqual/CrossProductSign/IsCollinear on both code paths is a Lean theorem about definitions regenerated from the source on every run; PointInPolygon/Area/GetSegmentIntersectPt by hand models tied by bit-exact correspondence",
-        level_note="Lean kernel; cpp2lean translator; correspondence harness; std::abs(INT64_MIN) precondition on the portable branch; IEEE exactness below 2^53",
-        technique="Lean 4 theorems over source-regenerated definitions + differential correspondence",
+        level_text="Theorems: Multiply exact for all 2^128 inputs; ProductsAreEqual/CrossProductSign/IsCollinear exact on both code paths (definitions regenerated from the source on every run); PointInPolygon model total and equal to the even-odd Spec for every polygon not contained in the point's horizontal line; Area loop = shoelace for every length; idealised GetSegmentIntersectPt exact on parallelism, on segment 1 and within one unit. The double computations are tied to these by bit-exact and spec-level correspondence",
+        level_note="Lean kernel; cpp2lean translator; correspondence harness; std::abs(INT64_MIN) precondition on the portable branch; IEEE exactness below 2^53; GetSegmentIntersectPt accuracy beyond 2^25 is judged by correspondence on well-conditioned pairs only (see known findings)",
+        technique="Lean 4 theorems over source-regenerated definitions and hand models + differential correspondence",
+        audits=["C18", "C18Geom"],
         level="proof",
-        harnesses=[dict(src="C18.cpp", portable=True)],
+        harnesses=[dict(src="C18.cpp", portable=True),
+                   dict(src="C18.cpp", portable=True, name="C18-hi", flags=["-DCLIPPER2_HI_PRECISION=1"])],
+        lean_targets=["ClipperVerif.Props.C18", "ClipperVerif.Props.C18Geom"],
         trusted_base=[LEAN_TB, T_TB, C_TB,
-                      "IEEE-754 double arithmetic on integers below 2^53 is exact (PointInPolygon/Area/GetSegmentIntersectPt models are stated over Int/Rat)",
+                      "IEEE-754 double arithmetic on integers below 2^53 is exact: PointInPolygon's CrossProduct is modelled over Int (theorem crossProduct_fits_double shows every intermediate is <= 2^53 for |coord| <= 2^25; the harness runs the Float instantiation PIPF next to the Int model PIP on every case)",
+                      "PointInPolygon / Area / GetSegmentIntersectPt are hand-written models (Model/Geom.lean) tied to the compiled code by output-level correspondence only (bit-exact Float models AREAF, GSIP, GSIPH; Int models PIP, AREA2)",
+                      "GetSegmentIntersectPt theorems are about the idealisation gsipIdeal (exact rational t, exact truncation); the double computation is related to it by the spec-level check SPEC_GSIP (within 1+2^-20 per axis for |coord| <= 2^25, within 1+2^-4 for well-conditioned pairs up to 2^40), not by proof",
+                      "Area over doubles: theorem is about the exact integer sum; rounding is judged per run by SPEC_AREA with the forward error bound (n+3)*2^-53*sum|terms|",
                       "std::abs(INT64_MIN) is undefined: the portable-branch theorems carry that precondition"],
-        rule="boundary lattice {0,±1,±2,±2^31,±2^32,±2^61,2^62-1,INT64 extremes} (exhaustive 4-tuples in thorough) plus random magnitudes 2^4..2^61 and forced equal products / collinear triples; a case is distinct by its request line, non-trivial = every record (each exercises a predicate on a fresh argument tuple)",
-        explanation="Theorems: Multiply exact for all 2^128 inputs; ProductsAreEqual/CrossProductSign/IsCollinear exact on both code paths (generated from source each run). Correspondence: generated definitions and the exact integer Spec against the compiled functions (128-bit and portable branches).",
+        rule="predicates: boundary lattice {0,±1,±2,±2^31,±2^32,±2^61,2^62-1,INT64 extremes} (exhaustive 4-tuples in thorough) plus random magnitudes 2^4..2^61 and forced equal products / collinear triples. PointInPolygon: every triangle (thorough: every quadrilateral) on the 3x3 lattice against every point of the 5x5 lattice, random 3-12-gons on small lattices with many vertices on the query line, horizontal runs through the point, points on vertices/edges, leading on-line vertices, one-horizontal-line polygons, repeated vertices, star polygons, each also scaled/offset to |coord| = 2^25, random magnitudes to 2^25 (Int model + Spec) and to 2^52 (double model only). Area: lengths 0-13 of both parities, magnitudes 5..2^61, stars, collinear, duplicates, spikes, range extremes. GetSegmentIntersectPt: random, exactly parallel/collinear, nearly parallel, zero length, shared end points, lattice crossings, axis-parallel, magnitudes 8..2^61; the spec-level accuracy check runs for |coord| <= 2^25 (all pairs) and for |coord| <= 2^40 only on well-conditioned (|det| >= 2^-10 |d1||d2|) or exactly parallel pairs (nearly parallel pairs at large magnitude are known finding 8 and run at model level only); both CLIPPER2_HI_PRECISION settings are built. A case is distinct by its request line.",
+        explanation="Theorems: Multiply exact for all 2^128 inputs; ProductsAreEqual/CrossProductSign/IsCollinear exact on both code paths (generated from source each run); PointInPolygon model terminates without fault on every input and equals Spec.pipEvenOdd for every polygon with >= 3 vertices and a vertex off the horizontal line through the point (pointInPolygon_exact), IsOutside on the excluded inputs; Area's two-at-a-time loop equals shoelace2 for every length; idealised GetSegmentIntersectPt reports parallelism exactly, its point lies on both lines, the result is within one unit per axis and inside the bounding box of segment 1. Correspondence: generated definitions, the hand models and the exact integer/rational Spec against the compiled functions (128-bit and portable branches; HI_PRECISION on and off).",
     ),
     "C01": dict(
         claimed=True,
@@ -74,6 +80,17 @@ PROPS = {
         harnesses=[dict(src="C05.cpp", name="C05")],
         trusted_base=[LEAN_TB, T_TB, C_TB] + AEL_TB + ["open paths are subject paths; cut-point placement and stitching not modelled"],
         rule="general-position closed subject/clip sets plus 1-3 random open polylines (premise incl. open paths verified exactly in Lean); all ct x fr sampled, paths and polytree execution; sample points at odd sixteenths of every open subject segment judged by keepOpen on exact winding numbers",
+        explanation="",
+    ),
+    "C11": dict(
+        claimed=True,
+        level="proof",
+        level_text="Theorems: CheckPrecisionRange (regenerated from source) accepts exactly [-8,8], throws precision_error with exceptions and sets the error bit and clamps without; every modelled PathsD entry point that checks precision/range reports a violation (exception, or empty result); proved negations with witnesses for the entry points that do not (known findings). 'Execute returns true / NoClip is empty' is decided by correspondence over degenerate and general inputs in both exception configurations; export-layer rejection codes are C17's generated validation table",
+        level_note="Lean kernel; cpp2lean for CheckPrecisionRange; hand models of the wrappers' control frames tied by output-level correspondence in the exceptions-on and -fno-exceptions builds; Execute-never-fails is sampled, not proved",
+        technique="Lean 4 theorems over source-regenerated CheckPrecisionRange and control-frame models + two-configuration correspondence",
+        harnesses=[dict(src="C11.cpp", name="C11"), dict(src="C11.cpp", name="C11noexc", flags=["-fno-exceptions"])],
+        trusted_base=[LEAN_TB, T_TB, C_TB, "out-of-range is an input flag of the control-frame models (the harness uses magnitudes far from the boundary MAX_COORD/scale)", "the 64-bit operation inside each wrapper is abstract (outcome `ran`)"],
+        rule="all listed precisions (-1000..1000, INT extremes) x in/out-of-range coordinates x delta zero/non-zero x empty rect/paths for every PathsD entry point, in both exception configurations; success part: general-position, tiny-lattice degenerate (empty, 1-2 point, duplicate, closing vertex) and 2^35-magnitude inputs x 5 clip types x 4 fill rules x paths/polytree",
         explanation="",
     ),
 }
